@@ -29,7 +29,11 @@ def gen_def(rng, depth, is_async=False, in_class=False):
     body = gen_body(rng, depth + 1, in_async=is_async)
     if rng.random() < 0.2:
         body = ['"""docstring of the function"""'] + body
-    return decos + [head] + _ind(body, 1)
+    out = decos + [head] + _ind(body, 1)
+    if rng.random() < 0.15:
+        # the definition's last physical line ends LEFT of the column of its `def`
+        out += _ind(["tail = (1,", "2"], 1) + [")"] if depth == 0 else _ind(["tail = '''text"], 1) + ["'''"]
+    return out
 
 
 def gen_class(rng, depth):
@@ -89,7 +93,7 @@ def gen_body(rng, depth, in_async=False):
         elif k < 0.83 and depth > 0:
             out += [rng.choice(("pass", "assert x, 'msg'", "del tmp", "nonlocal_free = 1"))]
         else:
-            out += [rng.choice(("x = 1", "y: int = 2", "z = f'{x!r:>{w}}'", "a, *b = 1, 2, 3", "print('hi', end='')", "x = (1 +\n     2)", "s = 'single'", "v = [i for i in range(3) if i]", "w = {**d, 'k': [*l]}", "@dec\ndef one_liner(): pass", "if x: y = 1; z = 2", "q = a if b else c", "t = x @ y", "lambda: 0", "...", "'a string statement'", "x = 1  # comment", "def inline(a): return a", "class E: pass"))]
+            out += [rng.choice(("x = 1", "y: int = 2", "z = f'{x!r:>{w}}'", "a, *b = 1, 2, 3", "print('hi', end='')", "x = (1 +\n     2)", "s = 'single'", "v = [i for i in range(3) if i]", "w = {**d, 'k': [*l]}", "@dec\ndef one_liner(): pass", "if x: y = 1; z = 2", "q = a if b else c", "t = x @ y", "lambda: 0", "...", "'a string statement'", "x = 1  # comment", "def inline(a): return a", "class E: pass", "# type: this comment is prose, not a PEP 484 type comment\npass", "d = {'k': 1,  # type: also prose\n     'j': 2}", "if x:  # type: prose after a header\n    pass", "y = []  # type: list[int]"))]
     return out
 
 
